@@ -11,7 +11,8 @@ use refmodel::RVal;
 use serde_json::json;
 use std::time::Duration;
 
-pub const OPS: [&str; 16] = [
+pub const OPS: [&str; 17] = [
+    "select_full_depth_path",
     "parse_value", "to_vec", "parse_jsonb", "from_slice", "to_string", "to_pretty_string", "compare_eq", "compare_ne", "get_by_path", "convert_to_comparable", "strip_nulls", "to_serde_json",
     "traverse_check_string", "contains", "delete_by_keypath", "type_and_accessors",
 ];
@@ -114,6 +115,20 @@ fn run_op(op: &str, shape: usize, n: usize) -> String {
                 let kp: Vec<_> = (0..n.min(4000)).map(|lvl| { let arr = match shape { 0 => true, 1 => false, _ => lvl % 2 == 0 }; to_keypath(&if arr { KP::Index(0) } else { KP::Name("a".into()) }) }).collect();
                 let mut out = vec![];
                 match jsonb::delete_by_keypath(&a, kp.iter(), &mut out) { Ok(_) => "ok", Err(_) => "err" }
+            }
+            "select_full_depth_path" => {
+                // one path step per nesting level (built as an AST; the text parser is not involved)
+                let a = deep_jsonb(shape, n, 1);
+                let mut steps = vec![Step::Root];
+                for lvl in 0..n.min(20_000) {
+                    let arr = match shape { 0 => true, 1 => false, _ => lvl % 2 == 0 };
+                    steps.push(if arr { Step::Indices(vec![AIdx::One(Idx::N(0))]) } else { Step::Dot("a".into()) });
+                }
+                let ip = to_impl_path(&JPath(steps));
+                let (mut d, mut o) = (vec![], vec![]);
+                let r1 = Selector::new(ip.clone(), Mode::All).select(&a, &mut d, &mut o);
+                let r2 = Selector::new(ip, Mode::Mixed).exists(&a);
+                if r1.is_ok() && r2.is_ok() { "ok" } else { "err" }
             }
             "type_and_accessors" => {
                 let a = deep_jsonb(shape, n, 1);
